@@ -27,9 +27,19 @@ targets, all event levels ERROR..TRACE, every iteration order of the hash maps):
 Pipeline (every step sequence of emitters, consumer and shutdown, any capacity):
 * `C19_fifo`, `C19_per_thread_order`, `C19_delivered_exactly_once`, `C19_block_never_drops`,
   `C19_drop_never_blocks`, `C19_disconnect_only_after_shutdown`;
-* `C19_no_loss_at_shutdown_partial` — if no emit is concurrent with shutdown, then once the
-  consumer has exited / seen `Disconnected` it has taken exactly the accepted events;
-  `C19_fails_F12b` — without that hypothesis the writer loses an accepted event;
+* `C19_no_loss_at_shutdown_partial` — a consumer that has exited (writer thread finished its final
+  drain / stream receiver saw `Disconnected`) has taken EVERY accepted event — also those accepted
+  concurrently with shutdown — in per-thread issue order, exactly once, nothing is left in flight
+  and nothing can be accepted afterwards; the one hypothesis is `graceEarly = false`: the writer's
+  `FINAL_DRAIN_GRACE` deadline (environment step `graceExpired`) did not fire before the senders
+  were closed and the in-flight sends had landed. `C19_no_loss_without_graceExpired_partial` — the
+  same for every step sequence in which `graceExpired` does not occur;
+  `C19_residual_graceExpired_early_loses` — the hypothesis is needed (the residual, documented
+  limit: real time is not modelled);
+  `C19_F12b_schedule_nothing_lost` — the schedule that lost an accepted event before the `fix:`
+  commit (former `C19_fails_F12b`) cannot make the repaired writer exit early and loses nothing;
+* `C19_no_loss_quiescent_shutdown_partial` — if no emit is concurrent with shutdown nothing is
+  lost whether or not the grace deadline expires (senders never closed, slow close);
   `C19_every_guard_end_shuts_down`, `C19_no_loss_any_guard_end_partial` — explicit shutdown, drop on
   any thread and drop during panic unwinding all run the same flag-then-close sequence.
 -/
@@ -214,10 +224,11 @@ theorem C19_disconnect_only_after_shutdown (cap : Nat) (pol : Overflow) (c : Con
     s.flag = true ∨ s.closed = true :=
   (inv_run (inv_init cap pol c) h).phase hleft
 
-example (s : State) (h : (seeDisconnected s).isSome = true) : s.closed = true ∧ s.buf = [] := by
+example (s : State) (h : (seeDisconnected s).isSome = true) :
+    s.closed = true ∧ s.buf = [] ∧ s.inflight = [] := by
   unfold seeDisconnected at h
   split at h
-  · rename_i hc; exact ⟨hc.2.1, hc.2.2⟩
+  · rename_i hc; exact hc.2
   · cases h
 
 /-- **Block never drops**: with the blocking overflow policy no event is discarded for lack of
@@ -227,7 +238,7 @@ theorem C19_block_never_drops (cap : Nat) (c : Consumer) (tr : List Step) (s : S
   (inv_run (inv_init cap .block c) h).noDrop (by
     have : ∀ (s s' : State) (st : Step), step s st = some s' → s'.policy = s.policy := by
       intro s s' st hs
-      cases st <;> simp only [step, sendBegin, sendEnd, consume, seeFlag, seeDisconnected, drainEmpty] at hs
+      cases st <;> simp only [step, sendBegin, sendEnd, consume, seeFlag, seeDisconnected, drainDisconnected, graceExpired] at hs
       all_goals (repeat' split at hs) <;> first | cases hs; rfl | cases hs
     have hrun : ∀ (tr : List Step) (s s' : State), run s tr = some s' → s'.policy = s.policy := by
       intro tr
@@ -248,25 +259,85 @@ theorem C19_drop_never_blocks (s : State) (m : Msg) (hp : s.policy = .dropNewest
   repeat' split
   all_goals first | rfl | contradiction | simp_all
 
-/-- **No loss at shutdown, partial.** `pre` is any history before shutdown; at the moment shutdown
-begins no send is in flight (`s1.inflight = []`) and no send starts between `setFlag` and `close`
-(`mid`): *no emit is concurrent with shutdown* (sends after `close` are refused by the channel
-and are not "accepted"). Then, for every continuation, once the consumer has exited (writer
-thread finished / stream receiver saw `Disconnected`) it has taken exactly the events accepted
-before shutdown began — and nothing was accepted afterwards. -/
+/-- **No loss at shutdown, partial** (the model of the repaired `run_byte_appender_writer`).
+For EVERY step sequence — any number of emitting threads, sends begun before, during and after
+`setFlag` / `close`, any capacity and policy — once the consumer has exited (the writer thread
+left its final drain, or the stream receiver saw `Disconnected`):
+every accepted event (its `send` returned `Ok`) has been taken by the consumer (`out = accepted`);
+no send is left in flight and the channel is closed, so nothing can be accepted afterwards;
+per emitting thread the delivered sequence is exactly the sequence in which that thread obtained
+its slots; and each event is delivered exactly as often as it was sent.
+Hypothesis (the part that is not proved, hence `_partial`): `graceEarly = false` — the writer's
+`FINAL_DRAIN_GRACE` deadline, the environment step `graceExpired`, did not fire before the sender
+handles were closed and the in-flight sends had landed. Real time is outside the model. -/
 theorem C19_no_loss_at_shutdown_partial (cap : Nat) (pol : Overflow) (c : Consumer)
+    (tr : List Step) (s : State)
+    (hrun : run (init cap pol c) tr = some s)
+    (hexit : s.phase = .exited)
+    (hgrace_notEarly : s.graceEarly = false) :
+    s.out = s.accepted ∧ s.inflight = [] ∧ s.buf = [] ∧ s.closed = true ∧
+      (∀ t, ofThread t s.out = ofThread t s.claimed) ∧
+      (∀ m, s.out.count m = s.claimed.count m) := by
+  have inv := inv_run (inv_init cap pol c) hrun
+  have hc := countInv_run (inv_init cap pol c) (countInv_init cap pol c) hrun
+  obtain ⟨hcl, hbuf, hinf⟩ := settled_run (settled_init cap pol c) hrun hexit hgrace_notEarly
+  have hout : s.out = s.accepted := by
+    have := inv.fifo
+    rw [hbuf, List.append_nil] at this
+    exact this
+  refine ⟨hout, hinf, hbuf, hcl, fun t => ?_, fun m => ?_⟩
+  · have := inv.order t
+    rw [hinf] at this
+    rw [hout, ← this]; simp [ofThread]
+  · have := hc m
+    rw [hinf, List.append_nil] at this
+    rw [hout]; exact this
+
+/-- With the blocking policy "accepted" is everything that was emitted before the channel was
+closed: under the hypotheses of `C19_no_loss_at_shutdown_partial` nothing was dropped, so every
+emit that was not refused by the closed channel has been written. -/
+theorem C19_no_loss_at_shutdown_block_partial (cap : Nat) (c : Consumer)
+    (tr : List Step) (s : State)
+    (hrun : run (init cap .block c) tr = some s)
+    (hexit : s.phase = .exited)
+    (hgrace_notEarly : s.graceEarly = false) :
+    s.dropped = [] ∧ s.out = s.accepted ∧ ∀ t, ofThread t s.out = ofThread t s.claimed := by
+  have h := C19_no_loss_at_shutdown_partial cap .block c tr s hrun hexit hgrace_notEarly
+  exact ⟨C19_block_never_drops cap c tr s hrun, h.1, h.2.2.2.2.1⟩
+
+/-- The same for every step sequence in which the grace deadline never expires: the hypothesis
+on the ghost `graceEarly` follows from `graceExpired ∉ tr`. -/
+theorem C19_no_loss_without_graceExpired_partial (cap : Nat) (pol : Overflow) (c : Consumer)
+    (tr : List Step) (s : State)
+    (hrun : run (init cap pol c) tr = some s)
+    (hexit : s.phase = .exited)
+    (hgrace_never : Step.graceExpired ∉ tr) :
+    s.out = s.accepted ∧ s.inflight = [] ∧ s.buf = [] ∧ s.closed = true ∧
+      (∀ t, ofThread t s.out = ofThread t s.claimed) ∧
+      (∀ m, s.out.count m = s.claimed.count m) :=
+  C19_no_loss_at_shutdown_partial cap pol c tr s hrun hexit
+    (by rw [graceEarly_run hgrace_never hrun]; rfl)
+
+/-- **No loss at a quiescent shutdown, partial** (independent of the grace deadline). `pre` is any
+history before shutdown; at the moment shutdown begins no send is in flight (`s1.inflight = []`)
+and no send starts between `setFlag` and `close` (`mid`): *no emit is concurrent with shutdown*
+(sends after `close` are refused by the channel and are not "accepted"). Then, for every
+continuation — including ones in which `graceExpired` fires, e.g. because `close` comes late —
+once the consumer has exited it has taken exactly the events accepted before shutdown began, and
+nothing was accepted afterwards. -/
+theorem C19_no_loss_quiescent_shutdown_partial (cap : Nat) (pol : Overflow) (c : Consumer)
     (pre mid rest : List Step) (s1 s2 : State)
     (hpre : run (init cap pol c) pre = some s1)
     (hfresh : s1.flag = false ∧ s1.closed = false)
-    (hF12b_noInflight : s1.inflight = [])
-    (hF12b_noNewSend : ∀ st ∈ mid, st.isSendBegin = false)
+    (hquiet_noInflight : s1.inflight = [])
+    (hquiet_noNewSend : ∀ st ∈ mid, st.isSendBegin = false)
     (hrun : run s1 (.setFlag :: mid ++ .close :: rest) = some s2)
     (hexit : s2.phase = .exited) :
     s2.out = s1.accepted ∧ s2.accepted = s1.accepted ∧
       ∀ t, ofThread t s2.out = ofThread t s1.accepted := by
   have inv1 := inv_run (inv_init cap pol c) hpre
   have hq1 : Quiet s1.accepted s1 := by
-    refine ⟨hF12b_noInflight, rfl, ?_⟩
+    refine ⟨hquiet_noInflight, rfl, ?_⟩
     intro hex
     have := inv1.phase (by rw [hex]; decide)
     rcases this with h | h
@@ -283,7 +354,7 @@ theorem C19_no_loss_at_shutdown_partial (cap : Nat) (pol : Overflow) (c : Consum
       intro st hst
       rcases List.mem_cons.1 hst with rfl | hst
       · rfl
-      · exact hF12b_noNewSend st hst)) hsa).1
+      · exact hquiet_noNewSend st hst)) hsa).1
     have hqb : Quiet s1.accepted { sa with closed := true } := ⟨hqa.noInflight, hqa.acc, hqa.exitedEmpty⟩
     have hq2 := (quiet_run hqb (Or.inr rfl) hrun).1
     have inv2 : Inv s2 := by
@@ -301,18 +372,33 @@ no-loss / disconnect statement below therefore applies to each of them. -/
 theorem C19_every_guard_end_shuts_down (g : GuardEnd) : shutdownSteps g = [.setFlag, .close] := by
   cases g <;> rfl
 
-/-- `C19_no_loss_at_shutdown_partial` instantiated for any way the guard ends (no emit concurrent
-with it): afterwards an exited consumer has taken exactly what was accepted. -/
+/-- `C19_no_loss_at_shutdown_partial` instantiated for any way the guard ends, with emits
+concurrent with it (`pre` may leave sends in flight, `rest` may begin new ones): afterwards an
+exited consumer has taken exactly what was accepted, unless the grace deadline fired early. -/
 theorem C19_no_loss_any_guard_end_partial (cap : Nat) (pol : Overflow) (c : Consumer) (g : GuardEnd)
     (pre rest : List Step) (s1 s2 : State)
     (hpre : run (init cap pol c) pre = some s1)
+    (hrun : run s1 (shutdownSteps g ++ rest) = some s2)
+    (hexit : s2.phase = .exited)
+    (hgrace_notEarly : s2.graceEarly = false) :
+    s2.out = s2.accepted ∧ s2.inflight = [] ∧ ∀ t, ofThread t s2.out = ofThread t s2.claimed := by
+  have hall : run (init cap pol c) (pre ++ (shutdownSteps g ++ rest)) = some s2 := by
+    rw [run_append, hpre]; exact hrun
+  have h := C19_no_loss_at_shutdown_partial cap pol c _ s2 hall hexit hgrace_notEarly
+  exact ⟨h.1, h.2.1, h.2.2.2.2.1⟩
+
+/-- the quiescent form for any way the guard ends (no emit concurrent with it, grace deadline
+irrelevant): an exited consumer has taken exactly what was accepted before. -/
+theorem C19_no_loss_any_guard_end_quiescent_partial (cap : Nat) (pol : Overflow) (c : Consumer) (g : GuardEnd)
+    (pre rest : List Step) (s1 s2 : State)
+    (hpre : run (init cap pol c) pre = some s1)
     (hfresh : s1.flag = false ∧ s1.closed = false)
-    (hF12b_noInflight : s1.inflight = [])
+    (hquiet_noInflight : s1.inflight = [])
     (hrun : run s1 (shutdownSteps g ++ rest) = some s2)
     (hexit : s2.phase = .exited) :
     s2.out = s1.accepted ∧ s2.accepted = s1.accepted := by
   rw [C19_every_guard_end_shuts_down g] at hrun
-  have := C19_no_loss_at_shutdown_partial cap pol c pre [] rest s1 s2 hpre hfresh hF12b_noInflight
+  have := C19_no_loss_quiescent_shutdown_partial cap pol c pre [] rest s1 s2 hpre hfresh hquiet_noInflight
     (by intro st hst; cases hst) (by simpa using hrun) hexit
   exact ⟨this.1, this.2.1⟩
 
@@ -321,10 +407,10 @@ example :
         ([.sendBegin ⟨0, 0⟩, .sendEnd ⟨0, 0⟩] ++ shutdownSteps (.drop true true) ++ [.consume, .seeDisconnected])).map
       (fun s => (s.phase, s.out, s.accepted)) = some (.exited, [⟨0, 0⟩], [⟨0, 0⟩]) := by decide
 
-/-- non-vacuity: two threads emit, shutdown with nothing in flight, the writer drains and exits. -/
+/-- non-vacuity: two threads emit, shutdown with nothing in flight, the writer drains and exits on `Disconnected`. -/
 example :
     let pre : List Step := [.sendBegin ⟨0, 0⟩, .sendBegin ⟨1, 0⟩, .sendEnd ⟨1, 0⟩, .sendEnd ⟨0, 0⟩, .consume, .sendBegin ⟨0, 1⟩, .sendEnd ⟨0, 1⟩]
-    let post : List Step := [.setFlag, .seeFlag, .close, .sendBegin ⟨1, 1⟩, .consume, .consume, .drainEmpty]
+    let post : List Step := [.setFlag, .seeFlag, .close, .sendBegin ⟨1, 1⟩, .consume, .consume, .drainDisconnected]
     (run (init 2 .block .writer) (pre ++ post)).map (fun s => (s.phase, s.out, s.accepted, s.refused)) =
       some (.exited, [⟨1, 0⟩, ⟨0, 0⟩, ⟨0, 1⟩], [⟨1, 0⟩, ⟨0, 0⟩, ⟨0, 1⟩], [⟨1, 1⟩]) := by decide
 
@@ -334,14 +420,66 @@ example :
         [.sendBegin ⟨0, 0⟩, .sendEnd ⟨0, 0⟩, .setFlag, .close, .consume, .seeDisconnected]).map
       (fun s => (s.phase, s.out, s.accepted)) = some (.exited, [⟨0, 0⟩], [⟨0, 0⟩]) := by decide
 
-/-- **F12b on the model.** A send has claimed its slot when shutdown begins; the writer sees the
-flag, its final `try_recv` finds nothing visible, it exits; the send then completes with `Ok`.
-The event is accepted (Block policy, nothing dropped or refused) and never written. -/
-theorem C19_fails_F12b :
+/-- non-vacuity of the strengthened theorem: thread 0's send is in flight across `setFlag`,
+`seeFlag` AND `close`, thread 1 has an accepted event queued; the writer's final drain writes
+thread 1's event, keeps polling (`Empty`, no step) until thread 0's send lands, writes it, and only
+then sees `Disconnected`. A send begun after `close` is refused. -/
+example :
+    (run (init 4 .block .writer)
+        [.sendBegin ⟨0, 0⟩, .sendBegin ⟨1, 0⟩, .sendEnd ⟨1, 0⟩, .setFlag, .seeFlag, .close, .consume,
+         .sendBegin ⟨1, 1⟩, .sendEnd ⟨0, 0⟩, .consume, .drainDisconnected]).map
+      (fun s => (s.phase, s.graceEarly, s.out, s.accepted, s.refused)) =
+      some (.exited, false, [⟨1, 0⟩, ⟨0, 0⟩], [⟨1, 0⟩, ⟨0, 0⟩], [⟨1, 1⟩]) := by decide
+
+/-- while a send is in flight the final drain cannot end on `Disconnected`, closed or not -/
+example : run (init 4 .block .writer) [.sendBegin ⟨0, 0⟩, .setFlag, .seeFlag, .close, .drainDisconnected] = none := by decide
+
+/-- **The F12b schedule on the repaired model.** Before the `fix:` commit the schedule
+`sendBegin m, setFlag, seeFlag, ⟨writer exits: final try_recv found nothing visible⟩, close,
+sendEnd m` ended with `m` accepted and never written (former theorem `C19_fails_F12b`). On the
+repaired model (i) the writer cannot leave its final drain on `Disconnected` at that point, nor
+after `close` while the send is still in flight, and (ii) the same schedule continued to the writer's exit
+delivers `m`: nothing is lost. -/
+theorem C19_F12b_schedule_nothing_lost :
+    run (init 4 .block .writer) [.sendBegin ⟨0, 0⟩, .setFlag, .seeFlag, .drainDisconnected] = none ∧
+    run (init 4 .block .writer) [.sendBegin ⟨0, 0⟩, .setFlag, .seeFlag, .close, .drainDisconnected] = none ∧
+    ∃ s, run (init 4 .block .writer)
+          [.sendBegin ⟨0, 0⟩, .setFlag, .seeFlag, .close, .sendEnd ⟨0, 0⟩, .consume, .drainDisconnected] = some s ∧
+        s.phase = .exited ∧ s.graceEarly = false ∧ s.accepted = [⟨0, 0⟩] ∧ s.out = [⟨0, 0⟩] ∧
+        s.dropped = [] ∧ s.refused = [] :=
+  ⟨by decide, by decide, _, rfl, by decide, by decide, by decide, by decide, by decide, by decide⟩
+
+/-- **Residual limit: the grace deadline.** If `FINAL_DRAIN_GRACE` expires while a send is still
+in flight (the emitting thread is descheduled for more than 200 ms between claiming its slot and
+publishing it, or `close_channels` is that late), the writer exits as before the repair and the
+event — accepted, Block policy, nothing dropped or refused — is never written. `graceEarly`
+records it: the hypothesis of `C19_no_loss_at_shutdown_partial` cannot be dropped. -/
+theorem C19_residual_graceExpired_early_loses :
     ∃ (tr : List Step) (s : State),
-      run (init 4 .block .writer) tr = some s ∧ s.phase = .exited ∧
+      run (init 4 .block .writer) tr = some s ∧ s.phase = .exited ∧ s.graceEarly = true ∧
         s.accepted = [⟨0, 0⟩] ∧ s.out = [] ∧ s.dropped = [] ∧ s.refused = [] :=
-  ⟨[.sendBegin ⟨0, 0⟩, .setFlag, .seeFlag, .drainEmpty, .close, .sendEnd ⟨0, 0⟩], _, rfl,
-    by decide, by decide, by decide, by decide, by decide⟩
+  ⟨[.sendBegin ⟨0, 0⟩, .setFlag, .seeFlag, .graceExpired, .close, .sendEnd ⟨0, 0⟩], _, rfl,
+    by decide, by decide, by decide, by decide, by decide, by decide⟩
+
+/-- the shape of the observed F12b history under an early grace expiry: thread 1's completed send
+is queued behind thread 0's unwritten slot, `try_recv` answers `Empty`, the deadline fires: both
+accepted events are lost. Without `graceExpired` the writer cannot exit here. -/
+example :
+    (run (init 4 .block .writer)
+        [.sendBegin ⟨0, 0⟩, .sendBegin ⟨1, 0⟩, .sendEnd ⟨1, 0⟩, .setFlag, .seeFlag, .graceExpired, .close, .sendEnd ⟨0, 0⟩]).map
+      (fun s => (s.phase, s.graceEarly, s.out, s.accepted)) = some (.exited, true, [], [⟨1, 0⟩, ⟨0, 0⟩]) := by decide
+
+/-- a grace expiry on an already drained, closed channel is harmless (`graceEarly` stays false) -/
+example :
+    (run (init 4 .block .writer)
+        [.sendBegin ⟨0, 0⟩, .sendEnd ⟨0, 0⟩, .setFlag, .close, .seeFlag, .consume, .graceExpired]).map
+      (fun s => (s.phase, s.graceEarly, s.out, s.accepted)) = some (.exited, false, [⟨0, 0⟩], [⟨0, 0⟩]) := by decide
+
+/-- senders never closed (the crate's unit tests set only the flag): the writer still terminates,
+by the grace deadline, and with no emit in flight nothing is lost (quiescent theorem) -/
+example :
+    (run (init 4 .block .writer)
+        [.sendBegin ⟨0, 0⟩, .sendEnd ⟨0, 0⟩, .setFlag, .seeFlag, .consume, .graceExpired]).map
+      (fun s => (s.phase, s.graceEarly, s.out, s.accepted)) = some (.exited, true, [⟨0, 0⟩], [⟨0, 0⟩]) := by decide
 
 end Fv.Props.C19
